@@ -18,6 +18,7 @@ import (
 	"github.com/go-kit/log"
 
 	"github.com/thanos-io/thanos/pkg/reloader"
+	"github.com/thanos-io/thanos/pkg/verifhook"
 
 	"verif/harness/simkit"
 )
@@ -132,6 +133,11 @@ type c47World struct {
 	applies    int
 	failedApps int
 	spurious   string
+	// midApply: the run lets the editor act while apply is between hashing and writing the config file
+	// (yield hook); then "which version an apply saw" is ambiguous and the checks that rely on it are
+	// replaced by what was on disk for Prometheus to load at the last successful reload.
+	midApply      bool
+	loadedOutputs map[string]string
 }
 
 // relevant reports whether the reloader takes the input file into account.
@@ -195,7 +201,8 @@ func (p *c47Prom) RoundTrip(req *http.Request) (*http.Response, error) {
 	w.mu.Lock()
 	w.requests++
 	n := w.requests
-	legit := w.lastOK == nil || w.pending || w.cur.version != w.lastOK.version || w.cur.envVersion != w.lastOK.envVersion
+	legit := w.lastOK == nil || w.pending || w.cur.version != w.lastOK.version || w.cur.envVersion != w.lastOK.envVersion ||
+		(w.midApply && (w.version != w.lastOK.version || w.envVersion != w.lastOK.envVersion))
 	if !legit && w.spurious == "" {
 		w.spurious = fmt.Sprintf("reload request #%d during apply #%d: no watched content changed since the last successful reload (content version %d, last reloaded version %d), no reload attempt failed since, environment unchanged",
 			n, w.applies, w.cur.version, w.lastOK.version)
@@ -227,10 +234,35 @@ func (p *c47Prom) RoundTrip(req *http.Request) (*http.Response, error) {
 	w.mu.Lock()
 	w.pending = false
 	w.lastOK = &cur
+	w.loadedOutputs = w.readOutputs()
 	w.okReloads++
 	w.mu.Unlock()
 	p.s.Note("prometheus: reload request #%d -> 200 (content version %d)", n, cur.version)
 	return &http.Response{StatusCode: 200, Status: "200 OK", Body: io.NopCloser(strings.NewReader("")), Header: http.Header{}, Request: req}, nil
+}
+
+// readOutputs is what Prometheus would load now: the output file and the files of the output dirs.
+func (w *c47World) readOutputs() map[string]string {
+	got := map[string]string{}
+	dirs := []string{}
+	if w.cfgOut != "" {
+		dirs = append(dirs, filepath.Dir(w.cfgOut))
+	}
+	for _, d := range w.cfgDirs {
+		dirs = append(dirs, d[1])
+	}
+	for _, d := range dirs {
+		ents, err := os.ReadDir(filepath.Join(w.root, d))
+		if err != nil {
+			continue
+		}
+		for _, e := range ents {
+			if b, err := os.ReadFile(filepath.Join(w.root, d, e.Name())); err == nil {
+				got[filepath.Join(d, e.Name())] = string(b)
+			}
+		}
+	}
+	return got
 }
 
 func (w *c47World) writeFile(rel string, f c47File) error {
@@ -298,6 +330,7 @@ func c47WatchLoop(ctx context.Context, s *simkit.Sim, w *c47World, r *reloader.R
 func runC47(x *simkit.Exec) {
 	w := &c47World{root: filepath.Join(x.TempDir(), "c47"), files: map[string]c47File{}, env: map[string]string{}}
 	w.tolerate = x.Bool("tolerate", 1, 2)
+	w.midApply = x.Bool("midApplyEdits", 1, 2)
 	layout := x.Draw("layout", 6)
 	// 0 cfg+out, 1 cfg+out+dir, 2 dir only, 3 cfg (no out)+watched, 4 two dirs+watched, 5 cfg+out+dir+watched
 	if layout == 0 || layout == 1 || layout == 3 || layout == 5 {
@@ -482,7 +515,19 @@ func runC47(x *simkit.Exec) {
 		r := reloader.New(log.NewNopLogger(), nil, opts)
 		notify := make(chan struct{}, 1)
 
+		reg := &taskReg{}
+		if w.midApply {
+			// not inside the initial apply: the editor only starts once the reloader is up
+			installYield(ctx, s, reg, func(string) bool {
+				w.mu.Lock()
+				defer w.mu.Unlock()
+				return w.applies > 1
+			})
+			defer verifhook.Set(nil)
+		}
 		s.Go("reloader", func() {
+			reg.register("reloader")
+			defer reg.unregister()
 			watchErr = c47WatchLoop(ctx, s, w, r, notify, watchInterval)
 		})
 		s.Go("editor", func() {
@@ -656,6 +701,16 @@ func runC47(x *simkit.Exec) {
 		x.Violate("reload-after-change", "never-reloaded:"+layoutSig, "no reload succeeded although reload failures stopped and 3 watch intervals passed\n%s", history())
 	case w.lastOK.envVersion != final.envVersion:
 		x.Probe("c47.final_reload_check_skipped_env_changed")
+	case w.midApply:
+		// what Prometheus loaded at its last successful reload must be the final configuration
+		for _, out := range simkit.SortedKeys(expect) {
+			if w.loadedOutputs[out] != expect[out] {
+				x.Violate("reload-after-change", "loaded-content-is-not-final:"+layoutSig,
+					"at the last successful reload %s held %q, the final configuration expands to %q, and no reload followed within 3 watch intervals without failures\n%s",
+					out, w.loadedOutputs[out], expect[out], history())
+				break
+			}
+		}
 	default:
 		if same, diff := c47SameInputs(w.lastOK.inputs, final.inputs); !same {
 			x.Violate("reload-after-change", "stale-after-change:"+layoutSig, "the last successful reload was triggered for content version %d; the final content (version %d) differs in %s and no reload followed within 3 watch intervals without failures (a failed attempt was pending: %v)\n%s",
@@ -663,4 +718,3 @@ func runC47(x *simkit.Exec) {
 		}
 	}
 }
-
